@@ -32,6 +32,7 @@ func (ex *Exec) step(fr *Frame, st *State, ins ssa.Instruction) {
 			return
 		}
 		ex.nilCheck(fr, st, p, x.Pos())
+		ex.guardedAccess(fr, st, p, 2, "assignment", x.Pos())
 		ex.storeTo(st, p, ex.val(fr, st, x.Val))
 	case *ssa.UnOp:
 		fr.env[x] = ex.unop(fr, st, x)
@@ -219,6 +220,7 @@ func (ex *Exec) unop(fr *Frame, st *State, x *ssa.UnOp) Val {
 			return ex.freshVal(st, x.Type(), "load")
 		}
 		ex.nilCheck(fr, st, p, x.Pos())
+		ex.guardedAccess(fr, st, p, 1, "load", x.Pos())
 		return ex.load(st, p, x.Type())
 	case token.NOT:
 		if t, ok := v.(*Term); ok {
